@@ -71,10 +71,11 @@ func init() {
 				jobs = append(jobs, w)
 			}
 			jobs = append(jobs, run.Job{ID: "text", Pkg: run.Module, Harness: "H_Text", Params: map[string]interface{}{}, CoverModels: true})
+			jobs = append(jobs, run.Job{ID: "text-after", Pkg: run.Module, Harness: "H_TextAfter", Params: map[string]interface{}{}})
 			jobs = append(jobs, run.Job{ID: "pure", Pkg: run.Module, Harness: "H_Pure", Params: map[string]interface{}{}, Race: true})
 			return jobs, nil
 		},
-		NeedCovers: []string{"assembled", "compiled", "ran", "cover.text", "cover.text.both_flags", "assembled_after", "cover.after_rejected", "cover.after_other"},
+		NeedCovers: []string{"assembled", "compiled", "ran", "cover.text", "cover.text.both_flags", "assembled_after", "cover.after_rejected", "cover.after_other", "cover.text_history"},
 		Bounds:     map[string]interface{}{"shapes": "all valid structures of weight <=5 (quick) / <=7 (thorough), plus long conditional lists and name lists that need bridge instructions", "histories": "for every fifth (thorough: every) shape whose first group has names: reference compilation, then another compilation (unknown name appended / duplicate name / the groups reversed with swapped actions), then the policy again - same program, and the reference still intact", "map_orders": "ascending and descending key order for every range over a map (maps of <=3 entries could be explored in all orders; the two extremes are used)", "values": "all operands, indices, actions; all 2^32 flag and action words for the text forms; all strings for the lookups"},
 		Outside:    []string{"compiling the same *Policy value from two goroutines (writes its arch field; excluded by the statement's 'distinct policy values')", "the Go runtime and memory model themselves", "interleavings are not enumerated: disjoint write sets + unwritten shared reads => data-race free and independent (DRF reduction)", "cross-process determinism beyond map order: no other source of nondeterminism (time, randomness, environment, pointer values) is reached - any call to one would stop the run as unmodelled"},
 		Assumptions: []string{"two computations whose write sets are private and whose shared reads are never written neither race nor influence each other (Go memory model)"},
